@@ -281,3 +281,42 @@ PROPS["C15"]["rule"] += (" Second runner C15S (session level): a running client 
     "(client identifier, reception marker, pending PUBLISH, PUBREL; truncated to 0, 1, 11 bytes or one byte altered) without a restart, plus the 17 restart-damage scenarios; "
     "c15s_ok: every call that loaded an undecodable value fails (AdoptSession: warns).")
 PROPS["C15"]["trusted_extra"] = SEQ_TB
+
+L3TXT = ("Concurrency: the synchronisation skeleton (connSem, writeSem, the two seqSem, queues, context, done/abort) is modelled as a monitor automaton (Sync.v) "
+         "over channel-operation events; recorded event traces of the real client under concurrent publishers, persisted publishers, the read routine and 1-3 "
+         "Close/Disconnect callers (synctest, randomised timing) must all be accepted by the monitor (trace inclusion). ")
+
+hist_prop("C10",
+    ["c10_error_leaves_connection", "c10_big_error_leaves_connection", "c10_redial", "c10_reset_then_redial", "c10_pending_released", "c10_connect_shape", "c10_own_writes_do_not_wait"],
+    ["interleaving statements (the read routine never waits on a condition only it can establish; bounded wait on the semaphores) are not theorems yet: SyncProofs in progress; the monitor is tied by trace inclusion",
+     "a request blocked in lockWrite spins (no blocking) while the write semaphore is pending and Online is still released, until ReadSlices notices the failure: CPU is burnt but the property's wording holds"],
+    "C10 generator: general histories + ReadBackoff measured in virtual time; second runner SYNC (concurrent runs).",
+    ALLSTATES + "Every error while reading/handling leaves the connection (close, offline, pending released) and the next ReadSlices redials; a failed attempt releases waiters with ErrDown; the read routine's own writes never wait for a connect. " + L3TXT +
+    "c10_ok judges sequential traces: redial after every offline return, pending requests released, ReadBackoff within [ReconnectWaitMin, ReconnectWaitMax] (exactly 1 s for Persistence errors, the maximum for refusals, nil only for ErrClosed).",
+    "Trusted: Coq kernel; Session and Sync models; harness; fair Go scheduler. Liveness is sampled (watchdogs: one virtual hour, 20 s real time for spinning calls).",
+    "Coq proof over all states/scripts (sequential) + monitor trace inclusion on concurrent runs")
+PROPS["C10"]["modules"] = ["HistChecks", "SyncCheck"]
+PROPS["C10"]["runners"] = [{"name": "C10", "synctest": True}, {"name": "SYNC", "synctest": True}]
+
+hist_prop("C11",
+    ["c11_completion_classes", "c11_quit", "c11_canceled_only_by_quit", "c11_subscribe_outcomes", "c11_ping_outcomes", "c11_suback_count_mismatch", "c11_offline_releases"],
+    ["'no call waits forever' is refuted by the recorded finding F7 (ping slot taken by another Ping's release path): reproduced on every run with the hooks as yield points, reported as KNOWN-FINDING",
+     "termination of Subscribe/Unsubscribe under all interleavings is not a theorem (mutex-protected map not in the L3 monitor)"],
+    "C11 generator: Subscribe/Unsubscribe/Ping with SUBACK codes (failures in every position), late/duplicate/lost responses, quit before/after submission, connection loss and Close during the wait; runner SYNCF7 adds the F7 schedule and concurrent runs.",
+    ALLSTATES + "A waiting request completes only with the documented classes; quit gives ErrCanceled/ErrAbandoned and releases the slot; a count-mismatch SUBACK fails that very request. c11_ok judges traces: every completion is justified by the response carrying that request's own packet identifier (codes mapped to its filters in order). " + L3TXT,
+    "Trusted: Coq kernel; Session and Sync models; harness. F7 is a genuine defect recorded in known_findings.txt.",
+    "Coq proof over all states/scripts (sequential) + monitor trace inclusion + scheduled reproduction of the recorded finding")
+PROPS["C11"]["modules"] = ["HistChecks", "SyncCheck"]
+PROPS["C11"]["runners"] = [{"name": "C11", "synctest": True}, {"name": "SYNCF7", "synctest": True}]
+
+hist_prop("C12",
+    ["c12_disconnect_outcomes", "c12_disconnect_not_submitted", "c12_closed_requests", "c12_errs_in_model", "c12_csem_monotone"],
+    ["no_chan_panic / token conservation / closed-for-good for ALL interleavings (SyncProofs) are in progress; until then the L3 monitor is tied by trace inclusion only",
+     "'promptly' = every call returned within the watchdog on all sampled schedules, not a theorem",
+     "recorded finding F23: after Close, ReadSlices first returns a left-over error (closed connection with a BigMessage pending, or the marker Save error) before ErrClosed"],
+    "C12 generator: Close/Disconnect at random points of sequential histories, then further calls of every kind; runner SYNC: 1-3 concurrent Close/Disconnect callers (nil/open/closed quit) against publishers, persisted publishers and the read routine in every phase (dial, handshake, resend, read, write, toOffline).",
+    ALLSTATES + L3TXT + "c12_ok (sequential) and sync_ok (concurrent) judge observations: no panic, no hang, Close/Disconnect return, afterwards every call returns ErrClosed and Online stays blocked, every pending exchange gets ErrClosed exactly when ReadSlices first reports it and stays open, a successful Disconnect makes DISCONNECT the last packet.",
+    "Trusted: Coq kernel; Session and Sync models; harness; Go scheduler fairness. F23 recorded.",
+    "Monitor trace inclusion on concurrent runs + Coq proof (sequential part) + observation checkers")
+PROPS["C12"]["modules"] = ["HistChecks", "SyncCheck"]
+PROPS["C12"]["runners"] = [{"name": "C12", "synctest": True}, {"name": "SYNC", "synctest": True}]
